@@ -30,14 +30,14 @@ CLAIMS = {
          "rustc/cargo are the observers; Rust's type system is not modelled. " + TB, "5 C19"),
 
  "C04": ("C04_address_chain_exact / C04_address_exact (induction over any chain of nested block accessors: the emitted checked arithmetic, if it does not panic, equals sum(offset + index*stride) in the integers, negative values included), C04_index_guard(+chain), C04_ref_address, C04_read_all_visits, C04_read_all_reports_bus_address_nonroot/_root (reported address = bus address; D2 was repaired in /repo); tie = accepted random trees compiled with a recording mock: every valid index tuple and the first invalid index per level called in a debug build; bus address vs the Coq model on the real MIR and vs the property's formula from the abstract definition; read_all_registers on every block instance.",
-         "Block refs are inside since D9 was repaired in /repo (7e1bb11): their accessors and every path through them are generated, modelled (Addr04.block_children) and compiled; index-as-IT wrap and IT overflow are C13's (D3/D3b). " + TB, "5 C04"),
+         "Block refs are inside since D9 was repaired in /repo (7e1bb11): their accessors and every path through them are generated, modelled (Addr04.block_children) and compiled; index-as-IT wrap and IT overflow are C13's (proved absent since D3/D3b were repaired). " + TB, "5 C04"),
 
  "C08": ("C08_accept_iff, C08_bytes, C08_no_bit_at_or_above_size, C08_out_of_range_bit_uses_C01_numbering (the rejection rule is stated with C01's setbit), C08_never_panics for EVERY size 1..128 by bit-level reasoning, plus device-level C08_new_constructor, C08_ref_override_own_constructor, C08_ref_without_override_uses_new over the transcribed reset_values_converted and the emitter's constructors; tie = per size x orders x forms x boundary values: real generator vs Coq model on the real MIR vs a transcription of the property text (L1 constructor literals) and compiled drivers' write(|_| ()) wire bytes (L2).",
          "bitvec's Lsb0/Msb0 views are modelled by their documented numbering. " + TB, "5 C08"),
  "C12": ("C12_claimed_eq_instances (the pass's expansion = the spec's instance list for every tree incl. block repeats, nesting, refs, block refs), C12_pairwise_complete, C12_reject_iff_collision (full since the repair of D10), C12_kinds_never_collide, C12_error_names_both; tie = near-colliding trees (exhaustive pair family + random) through the real generator vs model and spec on the real MIR: verdict, both names with indices, address.",
          "Fuel-bounded expansion: a block named like the device loops forever in the real pass (D11b, noted). " + TB, "5 C12"),
- "C13": ("C13_accepted_all_fit and C13_accepted_no_overflow for EVERY instance of EVERY accepted tree (no class excluded since the min/max walk was repaired in /repo de9122d + 22a2001: block repeats, block refs, refs keeping their target's address or repeat, i128 arithmetic), C13_walk_exact (the walk's (min, max) is exactly the min and max of 0 and the points of its filter), C13_walk_bounds_instances, C13_internal_type_covers(+_instances), C13_error_states_bound, C13_unfit_walk_range_rejected, C13_missing_type_rejected, C13_address_type_bounds_from_source (Integer::min_value / max_value TRANSLATED from mir/mod.rs on every build); one open refutation D3b (C13_signed_product_refuted: signed internal type and a product (count-1)*|stride| beyond it) — the no-overflow half is stated under steps_product_ok; five historical witnesses of the repaired defects (D3, D4, D4b, D4c, D3c) about the pre-repair model; tie = trees whose extreme instance sits at type.min/max + {-2..2} (blocks, repeats, refs with/without overrides, block refs, i64 extremes) through the real generator vs model and spec on the real MIR, corpus of the nine witnesses with written-down expectations, compiled drivers in debug and release for every instance of accepted definitions.",
-         "Partial only for D3b (known finding) and for the literal/product positions of D22 (C19). " + TB, "5 C13"),
+ "C13": ("C13_accepted_all_fit and C13_accepted_no_overflow_full for EVERY instance of EVERY accepted tree (no class excluded since the min/max walk was repaired in /repo de9122d + 22a2001: block repeats, block refs, refs keeping their target's address or repeat, i128 arithmetic), C13_walk_exact (the walk's (min, max) is exactly the min and max of 0 and the points of its filter), C13_walk_bounds_instances, C13_internal_type_covers(+_instances), C13_error_states_bound, C13_unfit_walk_range_rejected, C13_missing_type_rejected, C13_address_type_bounds_from_source (Integer::min_value / max_value TRANSLATED from mir/mod.rs on every build); C13_accepted_no_overflow_full is UNCONDITIONAL since the internal type was repaired in /repo (6e3a361, D3b): every cast, product and sum of the emitted address arithmetic is exact in the internal type (C13_steps_product_ok_holds, C13_index_casts_exact, C13_internal_type_covers_method_literals), C13_pass_order_from_source; six historical witnesses of the repaired defects (D3, D3b, D4, D4b, D4c, D3c) about the pre-repair models; no open finding; tie = trees whose extreme instance sits at type.min/max + {-2..2} (blocks, repeats, refs with/without overrides, block refs, i64 extremes) through the real generator vs model and spec on the real MIR, corpus of the nine witnesses with written-down expectations, refs respelled in every spelling that normalises to the declared name, the type the emitted block structs declare for base_address vs the model's internal type on every accepted definition, compiled drivers in debug and release for every instance of accepted definitions.",
+         "Full for the property as stated; the literal positions of the ROOT read_all_registers (typed in the register address type, not the internal type) are D22, a C19 finding. " + TB, "5 C13"),
  "C14": ("C14_accept_iff (full iff for cfg-free definitions, any depth, over an ASCII model of convert_case 0.6), C14_search_finds_declared, C14_accepted_refs_resolve, C14_lowering_terminates_iff_acyclic, C14_recursive_check_iff / _total (the repaired refs_validated rejects exactly the recursive block refs; D11 was repaired in /repo df1ac90), C14_accepted_is_acyclic, C14_accepted_expansion_terminates, C14_self_ref_refuted (historical), front-end rejection theorems, C14_snake_idempotent, C14_pascal_idempotent_refuted/_partial, C14_device_name_check; tie = (A) thousands of ASCII names through the real front ends vs Case.v, (B) trees with colliding spellings / dangling / wrong-kind refs / layout overrides vs the model on the real MIR (error kind + names; resolved targets; emitted names).",
          "convert_case modelled for ASCII only; uniqueness over (name, cfg) pairs is stated for cfg-free definitions. " + TB, "5 C14"),
  "C18": ("C18_gates_are_conjunctions_fixed / C18_fixed_walk_correct (all trees, by tree induction with a stack invariant; the model follows the repaired walk since /repo 7d9ba5c), C18_combine_atoms, C18_no_cfg_unconditional, C18_never_panics, and the historical C18_multi_level_exit_refuted / C18_partial about the pop-once walk (D6, fixed); tie = random trees of depth 0..4 with frequent multi-level exits: every #[cfg] attribute of every emitted item (flattened atom sets and literal all(..) nesting) vs the model and vs the structural spec.",
